@@ -15,6 +15,8 @@ THEOREMS = [
     ('EAO.Properties.C07', 'EAO.C07.nodal_rows_exact', 'exactly one nodal row per (node not skipped, step) that has dispatch, none otherwise; the nodal record lists them in order'),
     ('EAO.Properties.C19', 'EAO.C19.coarse_partition', 'the model\'s coarse grid (expectation of the coarse-interval oracle): one coarse step per pair of cuts, its minor list = the fine steps in [cut k, cut k+1), consecutive, disjoint, dt = sum of the fine dt'),
 ]
+from ..comp import splitmapping as _SMP
+THEOREMS = THEOREMS + _SMP.THEOREMS_C07_SPLIT
 COMPONENTS = ['hypotheses of the assembly theorems (well-formedness of asset problems) evaluated on every captured real asset problem', 'assemble (all aspects, positional) on captured real asset problems',
               'coarsen (fine steps per coarse step, coarse step lengths) vs the restricted grid the real code builds for every asset on a coarser frequency']
 RULE = ('random portfolios incl. order books with out-of-horizon orders (row-less variables), transports/multi-commodity (several rows per variable), '
